@@ -2,6 +2,7 @@
  *   drv_conc <creators> <shared_users> <iterations> <seed> <mode>
  * creators : threads that create / use / destroy their own instances (RS, flat XOR, ISA-L in rotation)
  * shared   : threads that encode/decode/reconstruct/query through ONE shared descriptor created up front
+ * mode bit2: flat-XOR hd=4 instances only, shared descriptor too (deepest decoder paths concurrently)
  * mode bit0: the creators start together so that the process's first RS creates race (no instance pre-exists)
  * Every thread checks its own results against sequential expectations (decode returns the original bytes,
  * reconstruct is byte-identical, descriptors of simultaneously live instances differ).  The monitor for data
@@ -19,7 +20,7 @@ static int n_creators, n_shared, iters, mode;
 static uint64_t seed0;
 static int live_desc[MAXT];           /* descriptor currently held by creator t (0 = none) */
 static pthread_barrier_t bar;
-static int shared_desc, shared_k = 4, shared_m = 2;
+static int shared_desc, shared_k = 4, shared_m = 2, shared_tol = 2;
 static long errors, dup_desc, ops;
 static pthread_mutex_t emu = PTHREAD_MUTEX_INITIALIZER;
 static char first_error[512];
@@ -33,44 +34,67 @@ static void fail(const char *what, int t, int it, int rc)
 }
 static uint64_t rnd(uint64_t *s) { uint64_t z = (*s += 0x9e3779b97f4a7c15ULL); z = (z ^ (z >> 30)) * 0xbf58476d1ce4e5b9ULL; z = (z ^ (z >> 27)) * 0x94d049bb133111ebULL; return z ^ (z >> 31); }
 
-/* one round trip through descriptor d (k, m): encode, decode with one data fragment missing, reconstruct it */
-static int roundtrip(int d, int k, int m, uint64_t *s, int t, int it)
+/* one round trip through descriptor d (k, m; tol = number of erasures the code tolerates): encode, decode with a random
+ * tolerated erasure set (1..tol fragments, data fragments favoured so that every decoder path - one, two, three data
+ * fragments lost, with and without lost parities - runs concurrently), reconstruct one of the missing fragments, the
+ * fragments-needed query, size query and validation */
+static int roundtrip(int d, int k, int m, int tol, uint64_t *s, int t, int it)
 {
     uint64_t len = 1 + rnd(s) % 600, flen = 0, olen = 0; char *data = malloc(len), **ed = NULL, **ep = NULL, *out = NULL;
-    char *frags[64]; int i, n = 0, rc, miss = (int)(rnd(s) % k); char *rec;
+    char *frags[64]; int i, n = 0, rc, ne, missing[64], gone[64], dest = -1; char *rec;
     for (i = 0; i < (int)len; i++) data[i] = (char)rnd(s);
     rc = liberasurecode_encode(d, data, len, &ed, &ep, &flen);
     if (rc != 0) { fail("encode", t, it, rc); free(data); return -1; }
-    for (i = 0; i < k + m; i++) if (i != miss) frags[n++] = i < k ? ed[i] : ep[i - k];
+    memset(gone, 0, sizeof gone);
+    ne = tol < 1 ? 1 : 1 + (int)(rnd(s) % tol);
+    if (rnd(s) % 3 == 0) ne = tol < 1 ? 1 : tol;
+    for (i = 0; i < ne; i++) {
+        int x = (rnd(s) % 4) ? (int)(rnd(s) % k) : (int)(rnd(s) % (k + m));
+        if (gone[x]) continue;
+        gone[x] = 1; missing[i] = x; if (dest < 0 || rnd(s) % 2) dest = x;
+    }
+    for (i = 0; i < k + m; i++) if (!gone[i]) frags[n++] = i < k ? ed[i] : ep[i - k];
     rc = liberasurecode_decode(d, frags, n, flen, (int)(rnd(s) & 1), &out, &olen);
     if (rc != 0 || olen != len || memcmp(out, data, len) != 0) fail("decode result differs from the sequential result", t, it, rc);
     if (rc == 0) liberasurecode_decode_cleanup(d, out);
     rec = malloc(flen);
-    rc = liberasurecode_reconstruct_fragment(d, frags, n, flen, miss, rec);
-    if (rc != 0 || memcmp(rec, ed[miss], flen) != 0) fail("reconstruct result differs from the sequential result", t, it, rc);
+    rc = liberasurecode_reconstruct_fragment(d, frags, n, flen, dest, rec);
+    if (rc != 0 || memcmp(rec, dest < k ? ed[dest] : ep[dest - k], flen) != 0) fail("reconstruct result differs from the sequential result", t, it, rc);
     free(rec);
+    {
+        int R[2], X[1] = { -1 }, N[80], j, bad = 0;
+        R[0] = dest; R[1] = -1;
+        for (j = 0; j < 80; j++) N[j] = -7;
+        rc = liberasurecode_fragments_needed(d, R, X, N);
+        if (rc != 0) bad = 1;
+        for (j = 0; !bad && j < 70 && N[j] != -1; j++) if (N[j] < 0 || N[j] >= k + m || N[j] == dest) bad = 1;
+        if (bad) fail("fragments_needed result differs from the sequential result", t, it, rc);
+    }
     if (liberasurecode_get_fragment_size(d, (int)len) != (int)(flen - 80)) fail("fragment size query", t, it, 0);
     if (is_invalid_fragment(d, ed[0]) != 0) fail("own fragment judged invalid", t, it, 0);
     liberasurecode_encode_cleanup(d, ed, ep);
     free(data);
-    __sync_fetch_and_add(&ops, 5);
+    (void)missing;
+    __sync_fetch_and_add(&ops, 6);
     return 0;
 }
 
 static void *creator(void *arg)
 {
     int t = (int)(long)arg, it; uint64_t s = seed0 * 1000 + t;
-    static const int cfg[4][5] = { {6, 4, 2, 2, 16}, {3, 5, 5, 3, 32}, {6, 2, 1, 1, 16}, {7, 4, 2, 2, 8} };
+    static const int cfg[8][5] = { {6, 4, 2, 2, 16}, {3, 5, 5, 3, 32}, {6, 2, 1, 1, 16}, {7, 4, 2, 2, 8},
+                                   {3, 10, 5, 4, 32}, {4, 5, 3, 3, 8}, {3, 6, 6, 4, 32}, {6, 6, 4, 4, 16} };
     pthread_barrier_wait(&bar);
     for (it = 0; it < iters; it++) {
-        const int *c = cfg[(mode & 2) ? 0 : (t + it) % 4]; struct ec_args a; int d, j, rc;
+        const int *c = cfg[(mode & 2) ? 0 : (mode & 4) ? 4 + 2 * ((t + it) % 2) : (t + it) % 8]; struct ec_args a; int d, j, rc, tol;
         memset(&a, 0, sizeof a); a.k = c[1]; a.m = c[2]; a.hd = c[3]; a.w = c[4]; a.ct = CHKSUM_CRC32;
         d = liberasurecode_instance_create((ec_backend_id_t)c[0], &a);
         if (d <= 0) { fail("create", t, it, d); continue; }
         __atomic_store_n(&live_desc[t], d, __ATOMIC_SEQ_CST);
         for (j = 0; j < n_creators; j++) if (j != t && __atomic_load_n(&live_desc[j], __ATOMIC_SEQ_CST) == d) { __sync_fetch_and_add(&dup_desc, 1); fail("two live instances share a descriptor", t, it, d); }
-        roundtrip(d, c[1], c[2], &s, t, it);
-        if (it % 3 == 0) roundtrip(d, c[1], c[2], &s, t, it);
+        tol = c[0] == 3 ? c[3] - 1 : c[2];
+        roundtrip(d, c[1], c[2], tol, &s, t, it);
+        if (it % 3 == 0 || (mode & 4)) roundtrip(d, c[1], c[2], tol, &s, t, it);
         __atomic_store_n(&live_desc[t], 0, __ATOMIC_SEQ_CST);
         rc = liberasurecode_instance_destroy(d);
         if (rc != 0) fail("destroy", t, it, rc);
@@ -81,7 +105,7 @@ static void *shared_user(void *arg)
 {
     int t = (int)(long)arg, it; uint64_t s = seed0 * 7777 + t;
     pthread_barrier_wait(&bar);
-    for (it = 0; it < iters * 2; it++) roundtrip(shared_desc, shared_k, shared_m, &s, 100 + t, it);
+    for (it = 0; it < iters * 2; it++) roundtrip(shared_desc, shared_k, shared_m, shared_tol, &s, 100 + t, it);
     return NULL;
 }
 
@@ -94,7 +118,9 @@ int main(int argc, char **argv)
     if (n_shared > 0) {
         struct ec_args a; memset(&a, 0, sizeof a);
         /* mode bit0 set: the shared descriptor is a flat-XOR instance, so no RS instance (and no GF table) pre-exists */
-        if (mode & 1) { a.k = 5; a.m = 5; a.hd = 3; a.ct = CHKSUM_CRC32; shared_k = 5; shared_m = 5; shared_desc = liberasurecode_instance_create(EC_BACKEND_FLAT_XOR_HD, &a); }
+        /* mode bit2 set: flat XOR with hd = 4 (three lost data fragments: the decoder's deepest path), shared and per thread */
+        if (mode & 4) { a.k = 10; a.m = 5; a.hd = 4; a.ct = CHKSUM_CRC32; shared_k = 10; shared_m = 5; shared_tol = 3; shared_desc = liberasurecode_instance_create(EC_BACKEND_FLAT_XOR_HD, &a); }
+        else if (mode & 1) { a.k = 5; a.m = 5; a.hd = 3; a.ct = CHKSUM_CRC32; shared_k = 5; shared_m = 5; shared_tol = 2; shared_desc = liberasurecode_instance_create(EC_BACKEND_FLAT_XOR_HD, &a); }
         else { a.k = 4; a.m = 2; a.hd = 2; a.ct = CHKSUM_CRC32; shared_desc = liberasurecode_instance_create(EC_BACKEND_LIBERASURECODE_RS_VAND, &a); }
         if (shared_desc <= 0) { printf("{\"error\":\"cannot create shared instance\"}\n"); return 2; }
     }
